@@ -113,6 +113,34 @@ func vfCorpusScan(minSize, maxSize int64) []vfCorpusCand {
 				return
 			}
 			defer f.Close()
+			// a file with a dataset of more than 2^20 elements is not a base (its full read
+			// would cost gigabytes in every one of its mutants)
+			huge := false
+			f.Walk(func(p string, obj Object) {
+				if d, ok := obj.(*Dataset); ok {
+					func() {
+						defer func() { recover() }()
+						if hdr, err := core.ReadObjectHeader(f.osFile, d.address, f.sb); err == nil {
+							if di, err := core.ReadDatasetInfo(hdr, f.sb); err == nil && di.Dataspace != nil {
+								n := uint64(1)
+								for _, x := range di.Dataspace.Dimensions {
+									if x != 0 && n > (1<<40)/x {
+										n = 1 << 40
+										break
+									}
+									n *= x
+								}
+								if n > 1<<20 {
+									huge = true
+								}
+							}
+						}
+					}()
+				}
+			})
+			if huge {
+				return
+			}
 			tr = vfDumpOpen(f)
 			feat[fmt.Sprintf("superblock-v%d", f.sb.Version)] = true
 			f.Walk(func(p string, obj Object) {
